@@ -17,10 +17,11 @@ pub struct Plan {
     pub split: u64,
     pub max_chunk: usize,
     pub interrupts: bool,
+    pub split_max_len: usize,
 }
 impl Plan {
     pub fn clean() -> Self {
-        Plan { kind: FaultKind::None, at: 0, split: 0, max_chunk: 1, interrupts: false }
+        Plan { kind: FaultKind::None, at: 0, split: 0, max_chunk: 1, interrupts: false, split_max_len: 0 }
     }
 }
 
@@ -30,6 +31,7 @@ fn arm(mut s: Ctl<Sparse>, p: &Plan) -> (Ctl<Sparse>, Rc<Cell<u64>>, Rc<Cell<boo
     s.split = p.split;
     s.max_chunk = p.max_chunk;
     s.interrupts = p.interrupts;
+    s.split_max_len = p.split_max_len;
     let (a, b) = (s.ops_shared.clone(), s.fired_shared.clone());
     (s, a, b)
 }
@@ -181,6 +183,19 @@ pub fn run_case(case: &Value, out: &mut Out) {
     let session = |p: &Plan| if is_mux { mux_session(case, p) } else { read_session(&bytes, &ids, p) };
     let (clean, n) = session(&Plan::clean());
     out.ev(json!({"e":"clean","calls":clean,"ops":n,"mux":is_mux}));
+    if case["big"].as_bool().unwrap_or(false) {
+        // a history of several GiB: the transparency patterns only, applied to the small transfers
+        // (headers, tables, the patched media-data header); the bulk writes pass whole
+        let plans = [
+            ("one byte per call (transfers up to 4 KiB)", Plan { split: 0x1234_5678_9ABC_DEF1, max_chunk: 1, split_max_len: 4096, ..Plan::clean() }),
+            ("interrupted calls, random splits (transfers up to 4 KiB)", Plan { split: 0x9999_2222_3333_4447, max_chunk: 5, interrupts: true, split_max_len: 4096, ..Plan::clean() }),
+        ];
+        for (name, p) in plans.iter().take(case["patterns"].as_u64().unwrap_or(2) as usize) {
+            let (calls, _) = session(p);
+            out.ev(json!({"e":"split","pattern":name,"calls":calls,"mux":is_mux}));
+        }
+        return;
+    }
     let stride = case["stride"].as_u64().unwrap_or(1).max(1);
     // every index of every stream call x fault kinds
     let kinds: Vec<(&str, FaultKind)> = if is_mux {
